@@ -20,6 +20,8 @@ func init() {
 }
 
 func runC07(c *core.Ctx) {
+	c.Rule("MAYBE", "maybe-fitting arguments are asserted at run time; type-function overloads are not matched by arity")
+	checkMaybeLoops(c, "MAYBE")
 	c.Rule("PARSEPAN", "the query parser does not panic on grammatical input")
 	checkParserPanics(c, "PARSEPAN")
 	c.Rule("PAN1", "no integer division by a possibly-zero divisor")
